@@ -4,8 +4,12 @@
      files      Proofs.IncludesNoPanic.parse_files_no_panic          (C01_includes_never_panic)
      desugar    Proofs.DesugarTotal.desugar_template_total / check_function_total   (C18_desugar_never_panics)
      shape      Proofs.MirrorsShape.desugar_output_shape              (bridge: C18_desugar_refines_expand)
-     lift       Proofs.LiftTotalFlat.lift_never_panics_desugared      (C01_lift_never_panics_on_desugared_shape)
-     adapter    Proofs.MirrorsAdapter.ir_of_lift_total                (bridge: C12_every_item_exactly_once)
+                Proofs.MirrorsShape.stmt_sugar_free_of_spec           (bridge: C18_desugar_output_sugar_free,
+                                                                       C18_function_kept_iff)
+     lift       Proofs.LiftFullTotal.lift_to_ir_never_panics          (C01_lift_to_ir_never_panics: renaming,
+                                                                       lifting, IR lifting, declarations)
+     lifted     Proofs.LiftFullIr.lifted_unversioned / lifted_written_declared / lifted_clean / lifted_dom
+                                                                      (what the lifted graph hands on; C13_liftfull_skeleton)
      dom tree   Proofs.MirrorsDom.lifted_tree                         (bridge: C12 theorems -> rooted; C15_no_panic)
      ssa        Proofs.SsaNoPanic.into_ssa_never_panics_tree          (C01_into_ssa_never_panics)
                 Proofs.SsaFuel.into_ssa_never_out_of_fuel             (C01_into_ssa_fuel_suffices)
@@ -16,10 +20,10 @@
    What remains a hypothesis is collected in [program_ok] below. *)
 From Coq Require Import ZArith NArith List Bool Lia Znumtheory.
 Require Import Model.Ast Model.Desugar Spec.ExpandSpec Proofs.DesugarTotal.
-Require Model.Base Model.PipelineMirrors Model.Lift Model.Dom Model.Ir Model.Ssa Model.Propagate Model.Justify
+Require Model.Base Model.PipelineMirrors Model.Lift Model.LiftFull Model.Dom Model.Ir Model.Ssa Model.Propagate Model.Justify
         Model.Clean Model.Includes Spec.DomSpec.
-Require Proofs.LiftTotalFlat Proofs.MirrorsShape Proofs.MirrorsAdapter Proofs.MirrorsDom Proofs.SsaNoPanic
-        Proofs.SsaFuel Proofs.SsaClean Proofs.PropagateTotal Proofs.IncludesNoPanic.
+Require Proofs.DesugarProofs Proofs.LiftTotalFlat Proofs.MirrorsShape Proofs.MirrorsDom Proofs.SsaNoPanic
+        Proofs.SsaFuel Proofs.SsaClean Proofs.PropagateTotal Proofs.IncludesNoPanic Proofs.LiftFullTotal Proofs.LiftFullIr.
 Import ListNotations.
 Local Open Scope list_scope.
 
@@ -30,63 +34,38 @@ Definition fine (d : PM.def_result) : Prop :=
   match d with PM.DROk _ | PM.DRReport _ => True | PM.DRPanic _ _ | PM.DRFuel _ => False end.
 
 Section Chain.
-  Variable ir_stmt : statement -> option Ir.stmt.
-  Variable ir_cond : meta -> expression -> option (Ir.meta * Ir.expr).
-  Variable ir_head : String.string -> statement -> PM.definition_head.
   Variable ord : nat -> list nat -> list nat.
   Variable horder : list nat -> list nat.
   Variable p : Z.
   Variable kv kd : nat.
 
-  Notation ir_node := (PM.ir_node ir_stmt ir_cond).
-  Notation cfg_of_body := (PM.cfg_of_body ir_stmt ir_cond).
   Notation ssa_of := (PM.ssa_of ord horder).
   Notation analyse_cfg := (PM.analyse_cfg ord horder p kv kd).
-  Notation analyse_body := (PM.analyse_body ir_stmt ir_cond ord horder p kv kd).
-  Notation analyse_template := (PM.analyse_template ir_stmt ir_cond ir_head ord horder p kv kd).
-  Notation analyse_function := (PM.analyse_function ir_stmt ir_cond ir_head ord horder p kv kd).
-  Notation analyse_program := (PM.analyse_program ir_stmt ir_cond ir_head ord horder p kv kd).
+  Notation analyse_body := (PM.analyse_body ord horder p kv kd).
+  Notation analyse_template := (PM.analyse_template ord horder p kv kd).
+  Notation analyse_function := (PM.analyse_function ord horder p kv kd).
+  Notation analyse_program := (PM.analyse_program ord horder p kv kd).
+  Notation body_ok := (PM.body_ok ord horder).
 
-  (* ---- the hypotheses, all decidable ---- *)
-
-  (* about the (unmirrored) IR lifting of the leaves of a body: no variable carries a
-     version yet, no node carries a value claim yet (literals non-negative), and a
-     local that is assigned is among the declarations *)
-  Definition lifted_ok (h : PM.definition_head) (body : statement) : bool :=
-    match PM.all_some (map ir_node (PM.table body)) with
-    | None => true
-    | Some tbl => forallb MirrorsAdapter.node_unv tbl && forallb MirrorsAdapter.node_clean tbl &&
-                  forallb (MirrorsAdapter.node_declared h) tbl
-    end.
-
-  (* about the graph the SSA construction returns, when it returns one: one defining
-     assignment per versioned local -- the second hypothesis of C20_propagate_completes
-     (C14_unique_defs states it for graphs C14's validator accepts; it is not proved
-     for the construction mirror).  The first one, no value claim yet, is proved:
-     Proofs.SsaClean.into_ssa_keeps_clean *)
-  Definition ssa_output_ok (h : PM.definition_head) (body : statement) : bool :=
-    match cfg_of_body h body with
-    | Base.Ok (Some c) =>
-        match ssa_of c with
-        | Base.Ok (_, Ssa.SOk c1) => Justify.ldefs_unique (Justify.all_stmts (Ir.c_blocks c1))
-        | _ => true
-        end
-    | _ => true
-    end.
-
-  Definition body_ok (name : String.string) (b : statement) : Prop :=
-    lifted_ok (ir_head name b) b = true /\ ssa_output_ok (ir_head name b) b = true.
+  (* ---- the hypotheses ---- *)
+  (* [PM.body_ok] (Model.PipelineMirrors; decidable, extracted, evaluated on every explored
+     definition) is what remains a hypothesis about a body handed to lifting:
+       names_distinct  the declaration keys after the renaming pass are pairwise different
+       stmt_lits_ok    number literals are non-negative
+       ssa_output_ok   one defining assignment per local in the graph into_ssa returns *)
 
   (* a template as the parser hands it on: C18's wf_template, initialisation blocks
      hold declarations and (multi-)substitutions, and the desugared body meets [body_ok] *)
-  Definition template_ok (ts : list (String.string * statement)) (lib : file_library)
-             (t : String.string * statement) : Prop :=
-    wf_template lib (snd t) /\ PM.ast_init_ok (snd t) = true /\
-    forall b', desugar_template (env_of ts) lib (snd t) = DOk b' -> body_ok (fst t) b'.
+  Definition template_ok (ts : list PM.definition) (lib : file_library) (t : PM.definition) : Prop :=
+    wf_template lib (PM.d_body t) /\ PM.ast_init_ok (PM.d_body t) = true /\
+    forall b', desugar_template (env_of (PM.named_bodies ts)) lib (PM.d_body t) = DOk b' -> body_ok t b' = true.
 
-  Definition function_ok (lib : file_library) (f : String.string * statement) : Prop :=
-    Forall (meta_known lib) (stmt_metas (snd f)) /\ (exists m l, snd f = Block m l) /\
-    PM.ast_init_ok (snd f) = true /\ body_ok (fst f) (snd f).
+  (* a function: metas known, the body is a block with well-shaped initialisation blocks,
+     and -- when it is handed on (no tuple, no anonymous component) -- it meets [body_ok] *)
+  Definition function_ok (lib : file_library) (f : PM.definition) : Prop :=
+    Forall (meta_known lib) (stmt_metas (PM.d_body f)) /\ (exists m l, PM.d_body f = Block m l) /\
+    PM.ast_init_ok (PM.d_body f) = true /\
+    (check_function (PM.d_body f) = DOk None -> body_ok f (PM.d_body f) = true).
 
   Definition program_ok (pr : PM.program) : Prop :=
     Forall (template_ok (PM.pr_templates pr) (PM.pr_lib pr)) (PM.pr_templates pr) /\
@@ -98,62 +77,85 @@ Section Chain.
   Hypothesis Hp2 : (2 < p)%Z.
   Hypothesis Hp3 : (Z.log2 p < 2 ^ 64)%Z.
 
-  (* ---- a body of the shape lifting accepts ---- *)
-  Lemma analyse_body_fine h body :
-    LiftTotalFlat.desugared_shape (PM.skel body 0) ->
-    lifted_ok h body = true -> ssa_output_ok h body = true ->
-    fine (analyse_body h body).
+  (* ---- the rest of the chain on a graph the lifting mirror returned ---- *)
+  Lemma analyse_lifted_fine d body r :
+    LiftFull.try_lift_impl (PM.d_kind d) (PM.d_params d) (PM.d_pfile d) (PM.d_ploc d) body = Base.Ok r ->
+    PM.stmt_lits_ok body = true -> PM.ssa_output_ok ord horder d body = true ->
+    fine (analyse_cfg (LiftFull.erase_cfg (LiftFull.l_cfg r))).
   Proof.
-    intros Hshape Hl Hs.
-    unfold PM.analyse_body. unfold lifted_ok in Hl. unfold ssa_output_ok in Hs.
-    destruct (PM.all_some (map ir_node (PM.table body))) as [tbl|] eqn:Et.
-    2:{ unfold PM.cfg_of_body. rewrite Et. exact I. }
-    apply andb_prop in Hl. destruct Hl as [Hl Hdecl]. apply andb_prop in Hl. destruct Hl as [Hunv Hcl].
-    destruct (LiftTotalFlat.lift_never_panics_desugared _ Hshape) as (g & Hg).
-    destruct (MirrorsAdapter.ir_of_lift_total ir_stmt ir_cond body tbl Et g Hg h) as (c & Hc).
-    assert (E1 : cfg_of_body h body = Base.Ok (Some c)).
-    { unfold PM.cfg_of_body. rewrite Et, Hg. cbn [Base.bind]. rewrite Hc. reflexivity. }
-    rewrite E1 in Hs |- *.
+    intros Er Hlits Hs.
+    assert (Ec : LiftFull.lift_to_ir (PM.d_kind d) (PM.d_params d) (PM.d_pfile d) (PM.d_ploc d) body
+                 = Base.Ok (LiftFull.erase_cfg (LiftFull.l_cfg r))).
+    { unfold LiftFull.lift_to_ir. rewrite Er. reflexivity. }
+    set (c := LiftFull.erase_cfg (LiftFull.l_cfg r)) in *.
+    unfold PM.ssa_output_ok in Hs. rewrite Ec in Hs.
+    set (key := fun _ : Ir.meta => 0%nat).
+    destruct (LiftFullIr.lifted_dom key _ _ _ _ _ _ Er) as (Hg & Hdom & Hlen).
+    set (g := map (LiftFull.skel_block key) (LiftFull.xc_blocks (LiftFull.l_cfg r))) in *.
+    fold c in Hdom, Hlen.
     destruct (MirrorsDom.lifted_tree _ g Hg ord Hord) as (t & Ht).
     set (frontier := PM.sets_of horder (Dom.dt_frontier t)).
     set (children := PM.sets_of horder (Dom.dt_children t)).
     assert (E2 : ssa_of c = Base.Ok (PM.idom_table t, Ssa.into_ssa frontier children c)).
-    { unfold PM.ssa_of. rewrite (MirrorsAdapter.dom_of_ir_of_lift tbl g h c Hc), Ht. reflexivity. }
+    { unfold PM.ssa_of. rewrite Hdom, Ht. reflexivity. }
     unfold PM.analyse_cfg. rewrite E2 in Hs |- *.
-    pose proof (MirrorsAdapter.ir_length tbl g h c Hc) as Hlen.
     destruct (MirrorsDom.lifted_children_facts _ g Hg ord Hord t Ht horder Hh) as (K1 & K2 & K3).
     fold children in K1, K2, K3. rewrite <- Hlen in K1.
     assert (Hn : (0 < length (Ir.c_blocks c))%nat).
     { rewrite Hlen. exact (MirrorsDom.lifted_nonempty _ g Hg). }
-    pose proof (MirrorsAdapter.ir_unversioned tbl g h c Hc Hunv) as Hu.
-    pose proof (MirrorsAdapter.ir_written_declared tbl g h c Hc Hdecl) as Hd.
+    pose proof (LiftFullIr.lifted_unversioned _ _ _ _ _ _ Ec) as Hu.
+    pose proof (LiftFullIr.lifted_written_declared _ _ _ _ _ _ Ec) as Hd.
     pose proof (SsaNoPanic.into_ssa_never_panics_tree frontier children c Hu Hn K1 K2 K3) as NP.
     pose proof (SsaFuel.into_ssa_never_out_of_fuel frontier children c Hu Hd Hn K1) as NF.
     destruct (Ssa.into_ssa frontier children c) as [c1| | |] eqn:Essa; [|exact I|contradiction|contradiction].
     pose proof (SsaClean.into_ssa_keeps_clean frontier children c c1
-                  (MirrorsAdapter.ir_clean tbl g h c Hc Hcl) Essa) as Hclean.
+                  (LiftFullIr.lifted_clean _ _ _ _ _ _ Hlits Ec) Essa) as Hclean.
     rename Hs into Huniq.
     destruct (PropagateTotal.propagate_completes p Hp1 Hp2 Hp3 kv kd (PM.idom_table t) c1 Hclean Huniq) as (c2 & ->). exact I.
   Qed.
 
-  Lemma analyse_template_fine ts lib t : template_ok ts lib t -> fine (analyse_template (env_of ts) lib t).
+  (* ---- a body of the shape lifting accepts ---- *)
+  Lemma analyse_body_fine d body :
+    LiftFull.is_block body = true -> LiftFull.stmt_sugar_free body = true -> LiftFull.ast_init_flat body = true ->
+    body_ok d body = true -> fine (analyse_body d body).
+  Proof.
+    intros Hb Hsf Hflat Hok. unfold PM.body_ok in Hok.
+    apply andb_prop in Hok. destruct Hok as [Hok Hs]. apply andb_prop in Hok. destruct Hok as [Hn Hlits].
+    assert (Hwf : LiftFull.definition_wf (PM.d_params d) (PM.d_pfile d) (PM.d_ploc d) body = true).
+    { unfold LiftFull.definition_wf. rewrite Hb, Hsf, Hflat. exact Hn. }
+    destruct (LiftFullTotal.liftfull_never_panics' (PM.d_kind d) _ _ _ _ Hwf) as [NP NF].
+    unfold PM.analyse_body, LiftFull.lift_to_ir.
+    destruct (LiftFull.try_lift_impl (PM.d_kind d) (PM.d_params d) (PM.d_pfile d) (PM.d_ploc d) body) as [r|e|s|] eqn:Er;
+      cbn [Base.bind].
+    - exact (analyse_lifted_fine d body r Er Hlits Hs).
+    - exact I.
+    - exact (NP s eq_refl).
+    - exact (NF eq_refl).
+  Qed.
+
+  Lemma analyse_template_fine ts lib t : template_ok ts lib t -> fine (analyse_template (env_of (PM.named_bodies ts)) lib t).
   Proof.
     intros (Hwf & Hinit & Hbody). unfold PM.analyse_template.
-    pose proof (desugar_template_total lib (env_of ts) (snd t) Hwf) as Hnc.
-    destruct (desugar_template (env_of ts) lib (snd t)) as [b'| | |] eqn:Ed; cbn [no_crash] in Hnc; try contradiction; [|exact I].
-    destruct (Hbody b' eq_refl) as [Hl Hs].
-    apply analyse_body_fine; [|exact Hl|exact Hs].
+    pose proof (desugar_template_total lib (env_of (PM.named_bodies ts)) (PM.d_body t) Hwf) as Hnc.
+    destruct (desugar_template (env_of (PM.named_bodies ts)) lib (PM.d_body t)) as [b'| | |] eqn:Ed;
+      cbn [no_crash] in Hnc; try contradiction; [|exact I].
+    pose proof (DesugarProofs.desugar_output_sugar_free _ _ _ _ Ed) as Hsf.
     destruct Hwf as (_ & Hshort & Hnode & (m & l & Eb)). rewrite Eb in *.
-    exact (MirrorsShape.desugar_output_shape lib ts m l b' Hnode Hshort Hinit Ed).
+    destruct (MirrorsShape.desugar_output_shape lib (PM.named_bodies ts) m l b' Hnode Hshort Hinit Ed) as (Hb & Hflat & _).
+    apply analyse_body_fine; [exact Hb|exact (MirrorsShape.stmt_sugar_free_of_spec _ Hsf)|exact Hflat|exact (Hbody b' eq_refl)].
   Qed.
 
   Lemma analyse_function_fine lib f : function_ok lib f -> fine (analyse_function f).
   Proof.
-    intros (Hk & Hb & Hinit & Hl & Hs). unfold PM.analyse_function.
-    pose proof (check_function_total lib (snd f) Hk) as Hnc.
-    destruct (check_function (snd f)) as [[rs|]| | |]; cbn [no_crash] in Hnc; try contradiction; try exact I.
-    apply analyse_body_fine; [|exact Hl|exact Hs].
-    apply MirrorsShape.skel_desugared_shape; assumption.
+    intros (Hk & (m & l & Eb) & Hinit & Hok). unfold PM.analyse_function.
+    pose proof (check_function_total lib (PM.d_body f) Hk) as Hnc.
+    pose proof (DesugarProofs.check_function_kept (PM.d_body f)) as Hsf.
+    destruct (check_function (PM.d_body f)) as [[rs|]| | |]; cbn [no_crash] in Hnc; try contradiction; try exact I.
+    apply analyse_body_fine.
+    - rewrite Eb. reflexivity.
+    - exact (MirrorsShape.stmt_sugar_free_of_spec _ (Hsf eq_refl)).
+    - rewrite <- MirrorsShape.ast_init_ok_flat. exact Hinit.
+    - exact (Hok eq_refl).
   Qed.
 
   Theorem analyse_program_fine pr : program_ok pr -> Forall fine (analyse_program pr).
@@ -177,7 +179,7 @@ Section Chain.
 
     Notation parse_files := (Includes.parse_files canon is_dir is_file read_dir join parent file_name
                                                   ext_circom starts_dot has_sep content).
-    Notation run := (PM.run_pipeline_mirrors ir_stmt ir_cond ir_head ord horder p kv kd canon is_dir is_file
+    Notation run := (PM.run_pipeline_mirrors ord horder p kv kd canon is_dir is_file
                                              read_dir join parent file_name ext_circom starts_dot has_sep
                                              content parse).
 
